@@ -122,9 +122,12 @@ def _main(args) -> int:
             stop["flag"] = True  # fail fast on something new (listed findings do not stop the search)
         return r
 
+    tree_at_start = runner.tree_hash()
     results = runner.pmap(one, seeds, args.jobs)
     done = [r for r in results if r is not None]
     t_runs = time.monotonic() - t0
+    if runner.tree_hash() != tree_at_start:
+        raise runner.HarnessFailure("the sources under %s changed while the check was running: results would mix two trees; run it again" % runner.REPO)
 
     # ---- self-test: determinism of the simulator (same seed twice, fresh processes)
     selftest = {"determinism_seeds": 0, "determinism_ok": True}
